@@ -153,6 +153,8 @@ class Consumers:
                         arms.append('        ("%s", "resp_str") => resp_str::<%s::%s>(input.as_str().unwrap()),' % (cid, cid, c["op"]))
                     elif k == "vars":
                         arms.append('        ("%s", "vars") => vars::<%s::%s>(input),' % (cid, cid, c["op"]))
+                    elif k == "defaults":
+                        arms.append('        ("%s", "defaults") => %s::verif_defaults(),' % (cid, cid))
             main = (MAIN_HEAD + "\n".join(mods) + "\n\nfn dispatch(case: &str, kind: &str, input: Value) -> Value {\n"
                     "    match (case, kind) {\n" + "\n".join(arms) +
                     '\n        _ => json!({"nocase": true}),\n    }\n}\n' + MAIN_TAIL)
